@@ -134,6 +134,7 @@ func (r *runner) structBefore(o Op) *structSnap {
 var wholesaleRemoval = map[string]bool{
 	"hclear": true, "lclear": true, "sclear": true, "zclear": true,
 	"ltrim": true, "zremrangebyrank": true, "zremrangebylex": true,
+	"hmclear": true, "lmclear": true, "smclear": true, "zmclear": true,
 }
 
 func groupKey(typ, tk string, ver int64) string { return fmt.Sprintf("%s|%s|%d", typ, tk, ver) }
